@@ -23,10 +23,6 @@ def index_set(expr, n):
     return list(val)
 
 
-def is_multi(expr):
-    return expr[0] != "i"
-
-
 class VectorModel:
     def __init__(self, shape, fields, units, metadata=None):
         self.shape = tuple(shape)
@@ -52,11 +48,6 @@ class VectorModel:
         m = VectorModel(self.shape, self.fields, self.units, self.metadata)
         m.cells = copy.deepcopy(self.cells)
         return m
-
-    def legal_cell(self, rows):
-        """rows: nested list as produced by ndarray.tolist(); legal iff 2-D with k columns.
-        (a zero-row array cannot be told from its tolist(); callers pass the ndarray shape)"""
-        raise NotImplementedError
 
     # ---- cells ----------------------------------------------------------------------------------
     def set_cell(self, idx, rows):
